@@ -10,7 +10,11 @@ PolClasses == {"h", "v", "obl", "hfix"}  \* E along the 1st / 2nd transverse axi
 Profiles == {"cw", "pulse"}              \* SingleFrequencyProfile (linear ramp, then CW) / GaussianPulseProfile
 Resolutions == {15, 20}                  \* cells per wavelength (precondition: >= 15)
 Beams    == {"uniform", "gauss"}         \* UniformPlaneSource / GaussianPlaneSource (radius >= 0.3 wavelengths)
-Configs  == [axis : Axes, dir : Dirs, pol : PolClasses, profile : Profiles, res : Resolutions, beam : Beams]
+\* on/off switch of the source: default always-on | switched on after 2 periods | on from 1.5 periods until after the end of
+\* the run (a start+end window that covers the measuring interval).  A switched source runs on its own clock (number of
+\* on-steps so far); the update loop takes a different code path for it than for the default switch.
+Switches == {"on", "delay", "window"}
+Configs  == [axis : Axes, dir : Dirs, pol : PolClasses, profile : Profiles, res : Resolutions, beam : Beams, switch : Switches]
 
 \* ---- scaled-integer units of the log: powers in ppb
 Ppb == 1000000000
